@@ -35,6 +35,12 @@ func orderConstOf(in ssa.Instruction) int {
 				if c != nil && c.Value != nil && loadOfField(other, "indexedMessageIterator", "order") {
 					return int(c.Int64())
 				}
+				// the read order handed to a method of the queue type as a parameter
+				if prm, ok := other.(*ssa.Parameter); ok && c != nil && c.Value != nil {
+					if nt, ok := prm.Type().(*types.Named); ok && nt.Obj().Name() == "ReadOrder" {
+						return int(c.Int64())
+					}
+				}
 			}
 		}
 	}
@@ -243,7 +249,7 @@ func checkC03(p *Program, r *Result) {
 	}
 	var queueCalls []queueCall
 	var reverseCalls []ssa.Instruction
-	for _, m := range methodsOf(p, pkgMcap, "indexedMessageIterator") {
+	for _, m := range iteratorAndQueueMethods(p) {
 		if m.Blocks == nil {
 			continue
 		}
@@ -277,7 +283,7 @@ func checkC03(p *Program, r *Result) {
 		}
 	}
 	// a reversal written as a swap loop: q[i], q[j] = q[j], q[i] on (a window of) the queue
-	for _, m := range methodsOf(p, pkgMcap, "indexedMessageIterator") {
+	for _, m := range iteratorAndQueueMethods(p) {
 		if m.Blocks == nil {
 			continue
 		}
@@ -495,7 +501,7 @@ func checkC03(p *Program, r *Result) {
 	// ---- c: chunk sort keys (parseSummarySection) vs trigger (NextInto)
 	sortKey := map[int][2]string{}
 	var sortSites []ssa.CallInstruction
-	for _, m := range methodsOf(p, pkgMcap, "indexedMessageIterator") {
+	for _, m := range iteratorAndQueueMethods(p) {
 		if m.Blocks == nil {
 			continue
 		}
@@ -537,7 +543,7 @@ func checkC03(p *Program, r *Result) {
 	}
 	trigger := map[int][2]string{}
 	var trigInstrs []ssa.Instruction
-	for _, m := range methodsOf(p, pkgMcap, "indexedMessageIterator") {
+	for _, m := range iteratorAndQueueMethods(p) {
 		if m.Blocks != nil {
 			trigInstrs = append(trigInstrs, instrsOf(m)...)
 		}
